@@ -78,6 +78,7 @@ type State struct {
 	ghost   map[string]*Term
 	frames  []*Frame
 	fresh   []freshObj
+	hbound  map[string]*Term // heap component -> allocation watermark at its last modification
 }
 
 func (s *State) top() *Frame { return s.frames[len(s.frames)-1] }
@@ -101,6 +102,10 @@ func (s *State) clone() *State {
 	}
 	n.trace = append([]string{}, s.trace...)
 	n.fresh = append([]freshObj{}, s.fresh...)
+	n.hbound = make(map[string]*Term, len(s.hbound))
+	for k, v := range s.hbound {
+		n.hbound[k] = v
+	}
 	return n
 }
 
@@ -160,12 +165,14 @@ func (x *Exec) heapGet(s *State, key, sort string) *Term {
 // heapSet installs a new version of a heap component, defined by term t.
 func (x *Exec) heapSet(s *State, key string, t *Term) {
 	x.heapSorts[key] = t.Sort
+	s.hbound[key] = s.alloc
 	if t.Kind == kVar {
 		s.heap[key] = t
 		return
 	}
 	v := Var(x.eng.fresh(key), t.Sort)
 	s.assume(Eq(v, t))
+	defOf[v.Op] = t
 	s.heap[key] = v
 }
 
@@ -175,6 +182,7 @@ func (x *Exec) heapHavoc(s *State, key string) {
 		return
 	}
 	s.heap[key] = Var(x.eng.fresh(key), sort)
+	s.hbound[key] = nil // bounded by the watermark current at load time
 }
 
 func (x *Exec) fieldKey(styp types.Type, st *types.Struct, i int) string {
@@ -215,7 +223,22 @@ func structOf(t types.Type) (*types.Struct, bool) {
 }
 
 // load reads the content of a location.
+// boundOf: every reference stored in heap component key is below this watermark.
+func (x *Exec) boundOf(s *State, key string) *Term {
+	if b, ok := s.hbound[key]; ok {
+		if b == nil {
+			return s.alloc
+		}
+		return b
+	}
+	if x.entryAlloc != nil {
+		return x.entryAlloc // untouched since function entry
+	}
+	return s.alloc
+}
+
 func (x *Exec) load(s *State, lv *LValue) (*Term, error) {
+	x.loadBound = nil
 	switch lv.Kind {
 	case lvOpaque:
 		v := Var(x.eng.fresh("opq"), x.sortOf(lv.Typ))
@@ -237,10 +260,12 @@ func (x *Exec) load(s *State, lv *LValue) (*Term, error) {
 			return Select(h, lv.Ref), nil
 		}
 		h := x.heapGet(s, x.cellKey(lv.Typ), SArr(SInt, x.sortOf(lv.Typ)))
+		x.loadBound = x.boundOf(s, x.cellKey(lv.Typ))
 		return Select(h, lv.Ref), nil
 	case lvField:
 		if lv.Base == nil {
 			h := x.heapGet(s, x.fieldKey(lv.STyp, lv.ST, lv.Field), SArr(SInt, x.sortOf(lv.Typ)))
+			x.loadBound = x.boundOf(s, x.fieldKey(lv.STyp, lv.ST, lv.Field))
 			return Select(h, lv.Ref), nil
 		}
 		b, err := x.load(s, lv.Base)
@@ -250,6 +275,7 @@ func (x *Exec) load(s *State, lv *LValue) (*Term, error) {
 		return x.eng.structField(lv.STyp, lv.ST, x.mode, b, lv.Field), nil
 	case lvElem:
 		h := x.heapGet(s, x.elemKey(lv.Typ), SArr(SInt, SArr(SInt, x.sortOf(lv.Typ))))
+		x.loadBound = x.boundOf(s, x.elemKey(lv.Typ))
 		return Select(Select(h, slArr(lv.Slice)), IAdd(slOff(lv.Slice), lv.Idx)), nil
 	case lvArrElem:
 		b, err := x.load(s, lv.Base)
